@@ -270,6 +270,16 @@ func (t *Object) Resolve(field *Field, args map[string]interface{}) (result inte
 	return
 }
 
+// implements reports whether the object lists the interface.
+func (t *Object) implements(it *Interface) bool {
+	for _, i := range t.Interfaces {
+		if i == it {
+			return true
+		}
+	}
+	return false
+}
+
 func (t *Object) metaCheck(rt reflect.Type) (reflect.Type, error) {
 	verifYield("metaCheck")
 	t.mu.Lock()
